@@ -9,7 +9,7 @@ from typing import Dict, List, Optional, Set
 from .. import hexa, tables
 from ..cfg import CFG
 from ..model import AnalysisError, FuncInfo, Repo, attr_chain, parent, walk_shallow
-from ..peval import NO_MATCH, Evaluator, NotEvaluable, Obj, Raised, Sym
+from ..peval import NO_MATCH, Evaluator, NotEvaluable, Obj, Raised, Sym, empty_defaults
 from ..report import RuleRun
 from ..util import fmt_path, is_open_for_write, node_calls
 from .c10 import LATERAL, _run, real_operation
@@ -210,6 +210,7 @@ def eval_add_vertices(repo: Repo, slave: Set[str], patches_by_side: Dict[str, st
         else:
             op.get(f"{side}_face").set("patch_name", name)
     mesh = Obj("mesh", cls=repo.cls("mesh.Mesh"))
+    empty_defaults(repo, repo.cls("mesh.Mesh"), mesh)
     pl = Obj("patch_list", cls=repo.cls("lists.patch_list.PatchList"))
     pl.set("merged", [list(m_) for m_ in merged] if merged is not None else [["<master>", sp] for sp in sorted(slave)])
     pl.set("patches", {})
@@ -455,6 +456,7 @@ def assemble_walk(repo: Repo, prop: str = PROP, rule: str = "C06.ASSEMBLE-WALK")
         mesh = Obj("mesh", cls=repo.cls("mesh.Mesh"))
         mesh.set("depot", depot)
         mesh.set("deleted", {ops[deleted]} if deleted is not None else set())
+        empty_defaults(repo, repo.cls("mesh.Mesh"), mesh)
         bl = Obj("block_list")
         bl.set("blocks", [])
         mesh.set("block_list", bl)
@@ -537,6 +539,7 @@ def assemble_walk(repo: Repo, prop: str = PROP, rule: str = "C06.ASSEMBLE-WALK")
         mesh_ = Obj("mesh", cls=repo.cls("mesh.Mesh"))
         mesh_.set("depot", [target] if depot_has_it else [])
         mesh_.set("deleted", {target} if already else set())
+        empty_defaults(repo, repo.cls("mesh.Mesh"), mesh_)
         try:
             Evaluator(repo=repo, module=dl.module).call_funcinfo(dl, [mesh_, target])
         except Raised as err:
@@ -645,4 +648,13 @@ def corner_patches(repo: Repo) -> RuleRun:
 
 corner_patches.rule_id = "C06.CORNER-PATCHES"
 
-RULES = [sections, side_tables, vertex_ownership, assemble_walk, patch_state, delete_skip, geometry_label, precision, user_state_survives, grading_form, geometry_redeclared, vertex_tolerance, grade_idempotent, live_lengths, axis_table, corner_patches]
+def empty_patch(repo: Repo) -> RuleRun:
+    """'exactly the patches ... the user declared': the boundary section lists the patches that have faces. Same rule as C12.EMPTY-PATCH."""
+    from . import c12
+
+    return c12.empty_patch(repo, PROP, "C06.EMPTY-PATCH")
+
+
+empty_patch.rule_id = "C06.EMPTY-PATCH"
+
+RULES = [sections, side_tables, vertex_ownership, assemble_walk, patch_state, delete_skip, geometry_label, precision, user_state_survives, grading_form, geometry_redeclared, vertex_tolerance, grade_idempotent, live_lengths, axis_table, corner_patches, empty_patch]
